@@ -417,6 +417,7 @@ type Auto struct {
 	Seq     []mqttp.IFace // everything, in arrival order
 	PubRaw  [][]byte      // raw bytes of the packets in Pubs
 	aliases map[uint16]string // receiver-side topic alias table (MQTT 5)
+	AliasOnly []bool          // per entry of Pubs: the packet carried no topic (resolved through the table)
 	closed  bool
 	notify  chan struct{}
 	NoAck   bool
@@ -472,6 +473,7 @@ func (a *Auto) loop() {
 					}
 				}
 			}
+			a.AliasOnly = append(a.AliasOnly, len(a.LastRaw) > 4 && p.Topic() != "" && topicLenRaw(a.LastRaw) == 0)
 			a.Pubs = append(a.Pubs, p)
 			a.PubRaw = append(a.PubRaw, a.LastRaw)
 		default:
@@ -555,4 +557,17 @@ func (a *Auto) CountOthers(t mqttp.Type) int {
 		}
 	}
 	return n
+}
+
+// topicLenRaw returns the length of the topic field of a raw PUBLISH packet.
+func topicLenRaw(raw []byte) int {
+	i := 1
+	for i < len(raw) && i <= 4 && raw[i] >= 0x80 {
+		i++
+	}
+	i++
+	if i+2 > len(raw) {
+		return -1
+	}
+	return int(raw[i])<<8 | int(raw[i+1])
 }
